@@ -75,6 +75,15 @@ def _eq_fields(ctx) -> List[str]:
             per_path.append(fs)
             continue
         conj = v.values if isinstance(v, ast.BoolOp) and isinstance(v.op, ast.And) else [v]
+        DERIVED = ("_null", "_hash", "_ansi", "_style_definition")
+        derived_reads = [y for y in ast.walk(v) if isinstance(y, ast.Attribute) and y.attr in DERIVED and norm(y.value) in ("self", other)]
+        if derived_reads and not any(field_of(c) for c in conj):
+            # a path that answers from a derived slot instead of the fields: right only if the slot is a function of the fields on
+            # EVERY construction route in both directions - `_null` is set to False by without_color / update_link even when nothing
+            # is left, so two styles that print, hash and parse alike compare unequal
+            ctx.violation(m.fq, f"return {norm(v)}", f"{m.module.relpath}:{m.node.lineno}",
+                          f"Style.__eq__ returns `{norm(v)}` on the path [{' & '.join(e[1] if e[2] else 'not (' + e[1] + ')' for e in p_ if e[0] == 'cond')}] without comparing the fields: `{derived_reads[0].attr}` is a derived flag that several construction routes (without_color, update_link, __add__ ..) set independently of the fields, so equal styles can compare unequal (and parse(str(s)) != s)")
+            continue
         for c in conj:
             f_ = field_of(c)
             if f_ is None:
